@@ -31,7 +31,8 @@ var (
 	uniO = []int{0, 1, 2, 3, 4}
 	uniY = []float32{-1.5, 0, 0.1, 0.25, 0.3, 0.5, 0.7, 1, 1.3, 3e38}
 	uniT []time.Time
-	uniZ = []string{"", "A", "B", "a", "aa", "ab", "b", "z", "é", "ÿ"}
+	// (one value holds a backslash followed by a letter that JSON knows as an escape: written raw it would read back as a tab)
+	uniZ = []string{"", "A", "B", "a", "a\\tb", "aa", "ab", "b", "z", "é", "ÿ"}
 
 	// case fields: raw spellings; classes are derived below
 	rawLower = []string{"", "a", "A", "ab", "AB", "Ab", "aB", "b", "B", "c", "C", "d", "D", "e", "f", "g", "h", "i", "I", "j", "k", "K", "K", "l", "m", "n", "o", "p", "q", "Q", "r", "R", "s", "S", "ſ", "straße", "STRAßE", "Straße", "t", "u", "v", "w", "x", "X", "y", "z", "é", "É", "ǆ", "ǅ", "Ǆ", "σ", "Σ", "ς"}
